@@ -1017,10 +1017,11 @@ func (c *compiler) evalForExpression(node *ast.ForExpression) (interface{}, erro
 	ret := []interface{}{}
 	switch riter.Kind() {
 	case reflect.Map:
-		keys := riter.MapKeys()
-		for i := 0; i < len(keys); i++ {
-			k := keys[i]
-			v := riter.MapIndex(k)
+		// (a key such as NaN cannot be looked up again: take key and value together)
+		entries := riter.MapRange()
+		for entries.Next() {
+			k := entries.Key()
+			v := entries.Value()
 			c.ctx.Set(node.KeyName, k.Interface())
 			c.ctx.Set(node.ValueName, v.Interface())
 
